@@ -48,11 +48,14 @@ C07(e) ==
             pre == PrefixStr(e.ver, e.out.minor)
             body == IF e.ver = "2" THEN e.out.clean ELSE e.out.clean_np
             ms == MetricSeq(e.ver, body)
-        IN IF p.cls # "ok" THEN "ok"
-           ELSE IF e.ver # "2" /\ e.out.clean # pre \o e.out.clean_np THEN "prefix"
+            q == Parse(e.ver, e.out.clean)
+        IN IF e.ver # "2" /\ e.out.clean # pre \o e.out.clean_np THEN "prefix"
            ELSE IF \E k \in 1..Len(ms) : ms[k] = "" THEN "clean-field-malformed"
            ELSE IF \E x, y \in 1..Len(ms) : x < y /\ ms[x] = ms[y] THEN "metric-twice"
-           ELSE IF PairSet(e.ver, body) # Defined(e.ver, p.given) THEN "not-exactly-the-defined-metrics"
+           \* whatever was accepted (C04 decides whether it should have been): the output is a fixed point of the canonical form
+           ELSE IF q.cls # "ok" THEN "clean-not-in-grammar"
+           ELSE IF Clean(e.ver, q.minor, q.given, TRUE) # e.out.clean THEN "clean-not-canonical"
+           ELSE IF p.cls = "ok" /\ PairSet(e.ver, body) # Defined(e.ver, p.given) THEN "not-exactly-the-defined-metrics"
            ELSE IF e.out.re_clean.cls # "ok" THEN "clean-not-reparsable"
            ELSE IF e.out.re_clean.scores # e.out.scores THEN "reparse-scores-differ"
            ELSE IF e.out.re_clean.clean # e.out.clean THEN "reparse-clean-differs"
@@ -67,7 +70,8 @@ C07Pool(e) ==
        okk(k) == e.out.objs[k].cls = "ok" /\ P[k].cls = "ok"
        SpecEq(a, b) == e.items[a].ver = e.items[b].ver /\ P[a].minor = P[b].minor /\ D[a] = D[b]
        Obs(k) == <<e.out.objs[k].scores, e.out.objs[k].sev, e.out.objs[k].clean>>
-   IN IF \E a, b \in 1..n : okk(a) /\ okk(b) /\ e.out.eq[a][b] # SpecEq(a, b) THEN "eq-matrix"
+   IN IF Len(e.out.raised) > 0 THEN "comparison-raised-" \o e.out.raised[1]
+      ELSE IF \E a, b \in 1..n : okk(a) /\ okk(b) /\ e.out.eq[a][b] # SpecEq(a, b) THEN "eq-matrix"
       ELSE IF \E a, b \in 1..n : okk(a) /\ okk(b) /\ e.out.ne[a][b] = e.out.eq[a][b] THEN "ne-not-negation-of-eq"
       ELSE IF \E a, b \in 1..n : okk(a) /\ okk(b) /\ e.out.eq[a][b] /\ ~e.out.hash_eq[a][b] THEN "equal-but-hash-differs"
       ELSE IF \E a, b \in 1..n : okk(a) /\ okk(b) /\ e.out.eq[a][b] /\ Obs(a) # Obs(b) THEN "equal-but-observables-differ"
